@@ -65,6 +65,15 @@ func sigInts(sig []byte) (string, bool) {
 	return v.R.Text(16) + "," + v.S.Text(16), true
 }
 
+// c09AlgIdx is the running index used to cycle through a family's algorithms: in the quick tier only every fourth RSA case
+// is executed, so the index counts executed cases (otherwise only algorithms 0 and 4 of 8 would ever be drawn).
+func c09AlgIdx(c *Ctx, family string, i int) int {
+	if family == "rsa" && !c.Thorough {
+		return i / 4
+	}
+	return i
+}
+
 func runC09(c *Ctx) {
 	rep := c.Rep
 	rep.Meta("cases: certificate / CSR / CRL templates over the documented fields (serial classes incl. negative and 20-byte, multi-valued names + extra attributes, validity encodings, key usages, EKUs, basic constraints / path lengths, SANs of each kind, name constraints, policy OIDs, extra extensions) x signer family {SM2, RSA-2048, P-256, P-384} x SignatureAlgorithm {unset, every algorithm of the family}; each created object is parsed back and compared field by field with the template (ground truth), verified under the issuer, under a fresh key of the same type, with the reference SM2 verifier over the raw TBS (SM2), and after a byte substitution at every position of the DER (b^1 and b^0x80): it must fail to parse or to verify unless TBS bytes and signature integers are unchanged. Distinct non-trivial = distinct (object kind, signer family, algorithm, template class) and (mutation region).",
@@ -444,9 +453,10 @@ func runC09(c *Ctx) {
 			if s.family == "rsa" && !c.Thorough && i%4 != 0 {
 				continue // RSA signing dominates cost
 			}
-			jobs = append(jobs, job{i, s, s.algs[i%len(s.algs)]})
-			if i < len(s.algs) { // make sure every algorithm of the family is seen with a plain template
-				jobs = append(jobs, job{i, s, s.algs[(i+1)%len(s.algs)]})
+			k := c09AlgIdx(c, s.family, i)
+			jobs = append(jobs, job{i, s, s.algs[k%len(s.algs)]})
+			if k < len(s.algs) { // make sure every algorithm of the family is seen with a plain template
+				jobs = append(jobs, job{i, s, s.algs[(k+1)%len(s.algs)]})
 			}
 		}
 	}
@@ -529,7 +539,7 @@ func runC09(c *Ctx) {
 			return
 		}
 		rr := c.Rng(fmt.Sprintf("csr%d", idx))
-		alg := s.algs[i%len(s.algs)]
+		alg := s.algs[c09AlgIdx(c, s.family, i)%len(s.algs)]
 		t := &gx509.CertificateRequest{Subject: pkix.Name{CommonName: fmt.Sprintf("csr-%d", i), Organization: []string{"Org"}}, SignatureAlgorithm: alg}
 		var tc []string
 		switch i % 5 {
@@ -713,7 +723,7 @@ func runC09(c *Ctx) {
 		}
 		// CreateRevocationList with each algorithm
 		{
-			alg := s.algs[i%len(s.algs)]
+			alg := s.algs[c09AlgIdx(c, s.family, i)%len(s.algs)]
 			num := big.NewInt(int64(1 + i))
 			t := &gx509.RevocationList{SignatureAlgorithm: alg, RevokedCertificates: revoked, Number: num, ThisUpdate: now, NextUpdate: exp}
 			if i%3 == 0 {
